@@ -136,9 +136,10 @@ class Env:
 class Ctx:
     _instances = 0
 
-    def __init__(self, repo=None, expand_quant=0):
+    def __init__(self, repo=None, expand_quant=0, max_depth=7):
         self.repo = repo or REPO
         self.expand_quant = expand_quant
+        self.MAX_DEPTH = max_depth
         self.scope_assumptions: list = []
         self.modules: dict[str, ast.Module] = {}
         self.funcs: dict[str, object] = {}
@@ -334,8 +335,6 @@ class Ctx:
             self.axioms_z3.append(z3.ForAll(consts, app == body.t, patterns=[app]))
             if recursive:
                 self.axioms_z3.append(z3.ForAll(consts, app == low(*consts), patterns=[app]))
-
-    MAX_DEPTH = 7
 
     def call_spec(self, name, args):
         tag, fn, pk, rk, pnames, recursive = self.specfuncs[name]
@@ -608,7 +607,11 @@ class Pure:
         conds = []
         for op, r in zip(e.ops, e.comparators):
             right = self.ev(r)
-            conds.append(compare(op, left, right))
+            a, b = left, right
+            if isinstance(op, (ast.Lt, ast.LtE, ast.Gt, ast.GtE)):
+                a = a.inner if isinstance(a, VOpt) else a
+                b = b.inner if isinstance(b, VOpt) else b
+            conds.append(compare(op, a, b))
             left = right
         return VBool(z3.And(conds) if len(conds) > 1 else conds[0])
 
@@ -763,13 +766,20 @@ def read_field(ctx: Ctx, heap: dict, base: V, attr: str) -> V:
         h = heap[key]
         if k.startswith("opt["):
             ik = k[4:-1]
-            return VOpt(ik, z3.Select(h[0], base.t), wrap(ik, z3.Select(h[1], base.t)))
-        return wrap(k, z3.Select(h, base.t))
+            return VOpt(ik, _select(h[0], base.t), wrap(ik, _select(h[1], base.t)))
+        return wrap(k, _select(h, base.t))
     fn, k = ctx.field_fn(base.kind, attr)
     if k.startswith("opt["):
         ik = k[4:-1]
         return VOpt(ik, fn[0](base.t), wrap(ik, fn[1](base.t)))
     return wrap(k, fn(base.t))
+
+
+def _select(h, idx):
+    """Select with the trivial read-over-write case resolved syntactically."""
+    if z3.is_store(h) and h.arg(1).eq(idx):
+        return h.arg(2)
+    return z3.Select(h, idx)
 
 
 BV = 8
